@@ -357,6 +357,9 @@ def serialise(r, top, variants=True, doctype=False, flags=None):
             elif k < 0.5 and len(seg) <= 3:
                 out.append("".join("&#%d;" % ord(c) if r.random() < 0.5 else "&#x%x;" % ord(c) for c in seg))
                 flags.add("charref")
+            elif doctype and "E1" in seg and k < 0.85:
+                out.append(esc_text(seg).replace("E1", "&ent;"))
+                flags.add("entity")
             else:
                 out.append(esc_text(seg))
             i = j
@@ -690,7 +693,15 @@ def run(ctx):
 
 
 def evaluate(ctx, r, impl, model, xalan, scale, state):
+    import time
     corr, orc = state["corr"], state["orc"]
+    tm = ctx.notes.setdefault("phase_seconds", {})
+    t_last = [time.time()]
+
+    def lap(name):
+        now = time.time()
+        tm[name] = round(tm.get(name, 0) + now - t_last[0], 1)
+        t_last[0] = now
     # ------------------------------------------------------------------ B: event streams
     nB = 160 * scale
     b_lines, b_exp = [], {}
@@ -740,6 +751,7 @@ def evaluate(ctx, r, impl, model, xalan, scale, state):
                 corr.append({"mode": "B", "case": lines_by_id[cid][:400], "impl": (got or "")[:300], "model": (res_m.get(cid) or "")[:300]})
         if got != exp:
             orc.append(("build", "tree built from the events differs from the document: got %s expected %s" % ((got or "(none)")[:600], exp[:600]), lines_by_id[cid]))
+    lap("B")
     # ------------------------------------------------------------------ W: XML text -> DOM wrapper / native tree / events
     nW = 120 * scale
     w_lines, w_info = [], {}
@@ -747,16 +759,21 @@ def evaluate(ctx, r, impl, model, xalan, scale, state):
         flags = set()
         doctype = r.random() < 0.3
         top = gen_doc(r, sorted_attrs=(r.random() < 0.7))
-        if doctype and r.random() < 0.5:
-            # an entity reference inside text
+        if doctype:
+            # text containing the replacement text of the internal entity: serialise() writes some of it as &ent;
             def add_ent(t):
                 if t[0] == "e":
                     return ("e", t[1], t[2], [add_ent(k) for k in t[3]])
+                if t[0] == "t" and len(t[1]) < 100 and r.random() < 0.6:
+                    k = r.randrange(len(t[1]) + 1)
+                    return ("t", t[1][:k] + "E1" + t[1][k:])
                 return t
             top = [add_ent(t) for t in top]
         xml = serialise(r, top, variants=True, doctype=doctype, flags=flags)
         cid = "w%d" % i
         keep = "r" if r.random() < 0.3 else ""
+        if keep and "entity" in flags:
+            flags.add("entref")
         w_lines.append(("%s W %s %s" % (cid, xml.encode("utf-8", "surrogatepass").hex(), keep)).strip())
         w_info[cid] = (top, flags, xml)
         ctx.count("W:" + ("+".join(sorted(flags)) or "plain"))
@@ -808,6 +825,7 @@ def evaluate(ctx, r, impl, model, xalan, scale, state):
         if not (flags & {"cdata", "entref"}):
             if node_view(wi) != node_view(ni):
                 orc.append(("wrap-vs-native", "wrapper view differs from the native tree on an XPath-normal document: %s vs %s" % (str(node_view(wi))[:400], str(node_view(ni))[:400]), w_by_id[cid]))
+    lap("W")
     # ------------------------------------------------------------------ O: output stream
     nO = 300 * scale
     o_lines, o_info = [], {}
@@ -870,6 +888,7 @@ def evaluate(ctx, r, impl, model, xalan, scale, state):
                 orc.append(("chunks", "callback chunks %s do not concatenate to the written data %s" % (chunks_i[:10], exp[:200]), o_by_id[cid]))
             if nflush and nflush[0] != "F%d" % sum(1 for k, _ in ws if k == "f"):
                 orc.append(("chunks", "flush handler called %s times for %d flush() calls" % (nflush[0], sum(1 for k, _ in ws if k == "f")), o_by_id[cid]))
+    lap("O")
     # ------------------------------------------------------------------ T: every form
     nT = 70 * scale
     t_cases = []
@@ -927,6 +946,7 @@ def evaluate(ctx, r, impl, model, xalan, scale, state):
                 res_i.update(res1)
             else:
                 orc.append(("crash", "the driver %s on this case: %s" % ("did not finish within 120 s" if rc1 == 124 else "exited with status %d" % rc1, raw1[-300:]), line))
+    lap("T-driver")
     by_case = {}
     for k, v in res_i.items():
         cid, _, form = k.partition("/")
@@ -1015,6 +1035,7 @@ def evaluate(ctx, r, impl, model, xalan, scale, state):
                 orc.append(("forms", what, line))
     finally:
         shutil.rmtree(workdir, ignore_errors=True)
+    lap("T-cli+classify")
     ctx.cov["samples"] = (ctx.cov.get("samples") or []) + samples
     ctx.notes["forms_compared"] = state.get("forms_compared", 0)
 
